@@ -47,16 +47,18 @@ Record shape := mkShape {
   commit_stale_status : bool;(* the commit-error return reports the variable httpStatus (the last operation's status) *)
   commit_clears_on_err : bool; (* Database.Commit sets d.Transaction = nil also when the driver commit failed *)
   close_skips_open_tx : bool;(* Database.Close returns without closing while d.Transaction != nil *)
-  defer_close : bool         (* defer db.Close() is registered before db.Begin() *)
+  defer_close : bool;        (* defer db.Close() is registered before db.Begin() *)
+  ops_in_tx : bool           (* every statement of an operation goes through Database.Exec/Query, which use
+                                d.Transaction while it is set (no operation handler touches db.Handle itself) *)
 }.
 
 (* the pinned tree before the repair, and after it *)
-Definition old_shape := mkShape true false true true true false true true.
-Definition fixed_shape := mkShape true true true true false true true true.
+Definition old_shape := mkShape true false true true true false true true true.
+Definition fixed_shape := mkShape true true true true false true true true true.
 
 Definition shape_closed (X : shape) : bool :=
   rb_formcond X && rb_eval X && rb_condtrue X && rb_operr X && negb (commit_stale_status X)
-  && (commit_clears_on_err X || negb (close_skips_open_tx X)) && defer_close X.
+  && (commit_clears_on_err X || negb (close_skips_open_tx X)) && defer_close X && ops_in_tx X.
 
 (* ---------------------------------------------------------------- the database *)
 Inductive sqltx := TNone | TOpen | TCommitted | TRolledBack.
@@ -94,7 +96,12 @@ Section DB.
   Record dbs := mkDb { durable : St; working : option St; tx : sqltx; ptr : bool }.
 
   Definition db_begin (d : dbs) : dbs := mkDb (durable d) (Some (durable d)) TOpen true.
-  Definition db_exec (i : nat) (d : dbs) : dbs := mkDb (durable d) (option_map (eff i) (working d)) (tx d) (ptr d).
+  (* a statement sent to the bare handle runs on another pooled connection in autocommit mode: it is durable at once
+     and no rollback of the request's transaction undoes it (when SQLite lets it through; a lock conflict is an
+     operation failure instead) *)
+  Definition db_exec (X : shape) (i : nat) (d : dbs) : dbs :=
+    if ops_in_tx X then mkDb (durable d) (option_map (eff i) (working d)) (tx d) (ptr d)
+    else mkDb (eff i (durable d)) (working d) (tx d) (ptr d).
   (* Database.Rollback: ErrNoTransactionActive (ignored by every caller) when the pointer is nil *)
   Definition db_rollback (d : dbs) : dbs :=
     if ptr d then mkDb (durable d) None TRolledBack false else d.
@@ -126,7 +133,7 @@ Section DB.
     | t :: r =>
       match t_res t with
       | OpOk =>
-        let d1 := db_exec (t_op t) d in
+        let d1 := db_exec X (t_op t) d in
         match conds X (t_conds t) with
         | Continue => loop X r d1
         | Exit rb st => ((if rb then db_rollback d1 else d1), Some (clamp st))
